@@ -16,17 +16,16 @@ Definition prims_ok (P : prims) : Prop :=
      (ja_family row = "EdDSA"%string -> ed_curve k = true) -> safe (p_jws_verify P (ja_name row) k m s)) /\
   (forall n ct tag cek iv aad, safe (p_enc_decrypt P n ct tag cek iv aad)) /\
   (forall b e, p_inflate P b = Err e -> e = EZlib \/ e = EJose ExceededSizeError) /\
-  (forall n k, safe (p_dir_cek P n k)) /\
-  (forall a k ek, safe (p_decrypt_cek P a k ek)) /\
-  (forall a k iv tag ek, safe (p_gcmkw P a k iv tag ek)) /\
+  (forall a k ek, safe (p_rsa_decrypt P a k ek)) /\
+  (forall kek ek, safe (p_aes_unwrap P kek ek)) /\
+  (forall k iv tag ek, safe (p_gcm_unwrap P k iv tag ek)) /\
   (forall a k s c, (1 <= c <= 2147483647)%Z -> safe (p_pbkdf2 P a k s c)) /\
-  (forall a ek kek, safe (p_unwrap P a ek kek)) /\
   (forall kty d priv, safe (p_import_epk P kty d priv)) /\
-  (forall k e, safe (p_exchange P k e)) /\
+  (forall k e, safe (p_ecdh P k e)) /\
   (forall s f n, safe (p_concat_kdf P s f n)).
 
 Ltac use_ok H :=
-  destruct H as (H1 & H2 & H3 & H4 & H5 & H6 & H7 & H8 & H9 & H10 & H11 & H12).
+  destruct H as (H1 & H2 & H3 & H4 & H5 & H6 & H7 & H8 & H9 & H10 & H11).
 
 Lemma jws_deserialize_compact_ok P g reg ka v : prims_ok P ->
   needs_jws_compact g = true -> jws_reg_wf reg = true -> safe (jws_deserialize_compact g P reg ka v).
@@ -52,8 +51,8 @@ Lemma r7797_deserialize_json_ok P g reg0 reg7 ka value : prims_ok P ->
   jws_documented_shape value = true -> safe (r7797_deserialize_json g P reg0 reg7 ka value).
 Proof. intro H. use_ok H. apply r7797_deserialize_json_safe; assumption. Qed.
 
-Lemma jwe_decrypt_compact_ok P g reg ka v : prims_ok P ->
-  needs_jwe_compact g = true -> jwe_reg_wf2 reg = true -> safe (jwe_decrypt_compact g P reg ka v).
+Lemma jwe_decrypt_compact_ok P g reg ka sa v : prims_ok P ->
+  needs_jwe_compact g = true -> jwe_reg_wf2 reg = true -> safe (jwe_decrypt_compact g P reg ka sa v).
 Proof. intro H. use_ok H. eapply jwe_decrypt_compact_safe; eassumption. Qed.
 
 Lemma jwt_decode_jwe_ok P g reg ka v : prims_ok P ->
@@ -61,9 +60,9 @@ Lemma jwt_decode_jwe_ok P g reg ka v : prims_ok P ->
   safe (jwt_decode_jwe g P reg ka v).
 Proof. intro H. use_ok H. eapply jwt_decode_jwe_safe; eassumption. Qed.
 
-Lemma jwe_decrypt_json_ok P g reg ka data : prims_ok P ->
+Lemma jwe_decrypt_json_ok P g reg ka sa data : prims_ok P ->
   needs_jwe_json g = true -> jwe_reg_wf2 reg = true -> jwe_documented_shape data = true ->
-  safe (jwe_decrypt_json g P reg ka data).
+  safe (jwe_decrypt_json g P reg ka sa data).
 Proof. intro H. use_ok H. eapply jwe_decrypt_json_safe; eassumption. Qed.
 
 (* every entry's guard requirement holds for the fixed code *)
@@ -91,14 +90,13 @@ Definition wprims (json : bytes -> res pv) : prims :=
      p_jws_verify := wverify;
      p_enc_decrypt := fun _ _ _ _ _ _ => Ok [];
      p_inflate := fun _ => Err EZlib;
-     p_dir_cek := fun _ _ => Ok (repeat 0 16);
-     p_decrypt_cek := fun _ _ _ => Err (EJose DecodeError);
-     p_gcmkw := fun _ _ _ _ _ => Err (EJose DecodeError);
+     p_rsa_decrypt := fun _ _ _ => Err (EJose DecodeError);
+     p_aes_unwrap := fun _ _ => Err (EJose DecodeError);
+     p_gcm_unwrap := fun _ _ _ _ => Err (EJose DecodeError);
      p_pbkdf2 := fun _ _ _ c => if ((1 <=? c) && (c <=? 2147483647))%Z then Ok []
                                 else if (c =? 0)%Z then Err EValue else Err EOverflow;
-     p_unwrap := fun _ _ _ => Err (EJose DecodeError);
-     p_import_epk := fun _ _ _ => Err EValue;
-     p_exchange := fun _ _ => Err (EJose InvalidExchangeKeyError);
+     p_import_epk := fun _ _ _ => Ok tt;
+     p_ecdh := fun _ _ => Err EValue;
      p_concat_kdf := fun _ _ _ => Err EValue |}.
 
 Lemma hs256_is_oct :
@@ -108,8 +106,8 @@ Proof. vm_compute. reflexivity. Qed.
 Lemma wprims_ok json :
   (forall b e, json b = Err e -> e = EValue \/ e = ERuntime) -> prims_ok (wprims json).
 Proof.
-  intro J. unfold prims_ok, wprims; cbn [p_json_loads p_jws_verify p_enc_decrypt p_inflate p_dir_cek
-    p_decrypt_cek p_gcmkw p_pbkdf2 p_unwrap p_import_epk p_exchange p_concat_kdf].
+  intro J. unfold prims_ok, wprims; cbn [p_json_loads p_jws_verify p_enc_decrypt p_inflate p_rsa_decrypt
+    p_aes_unwrap p_gcm_unwrap p_pbkdf2 p_import_epk p_ecdh p_concat_kdf].
   repeat split; try exact J; intros; try exact I; try reflexivity.
   - unfold wverify. destruct (String.eqb (k_kty k) "RSA" && String.eqb (ja_name row) "HS256") eqn:E; [|exact I].
     apply andb_true_iff in E. destruct E as [E1 E2]. apply String.eqb_eq in E1.
@@ -127,18 +125,20 @@ Lemma jconst_ok v : (forall e, v = Err e -> e = EValue \/ e = ERuntime) ->
 Proof. intros H b e E. apply H. exact E. Qed.
 
 (* keys and registries of the witnesses *)
-Definition k_oct : key := {| k_kty := "oct"; k_crv := ""; k_kid := PNone; k_use := PNone |}.
-Definition k_rsa : key := {| k_kty := "RSA"; k_crv := ""; k_kid := PNone; k_use := PNone |}.
-Definition k_ec : key := {| k_kty := "EC"; k_crv := "P-256"; k_kid := PNone; k_use := PNone |}.
-Definition k_x25519 : key := {| k_kty := "OKP"; k_crv := "X25519"; k_kid := PNone; k_use := PNone |}.
+Definition mk (kty crv : string) (raw : bytes) : key :=
+  {| k_kty := kty; k_crv := crv; k_kid := PNone; k_use := PNone; k_raw := raw; k_private := true; k_opfail := [] |}.
+Definition k_oct : key := mk "oct" "" (repeat 0 16).
+Definition k_rsa : key := mk "RSA" "" [].
+Definition k_ec : key := mk "EC" "P-256" [].
+Definition k_x25519 : key := mk "OKP" "X25519" [].
 Definition jws_all : jws_reg :=
   {| jr_hreg := jws_default_instance_header_registry; jr_strict := true; jr_allowed := map ja_name jws_alg_table; jr_7797 := false |}.
 Definition r7797_all : jws_reg :=
   {| jr_hreg := jws7797_default_header_registry; jr_strict := true; jr_allowed := map ja_name jws_alg_table; jr_7797 := true |}.
 Definition jwe_all : jwe_reg :=
   {| er_hreg := jwe_default_instance_header_registry; er_strict := true;
-     er_allowed := map ea_name jwe_alg_table ++ map ee_name jwe_enc_table ++ map ez_name jwe_zip_table;
-     er_verify_all := true |}.
+     er_allowed := map ea_name jwe_alg_table_drafts ++ map ee_name jwe_enc_table_drafts ++ map ez_name jwe_zip_table_drafts;
+     er_verify_all := true; er_drafts := true |}.
 
 Lemma witness_regs_wf : jws_reg_wf jws_all = true /\ jws_reg_wf r7797_all = true /\ jwe_reg_wf2 jwe_all = true.
 Proof. vm_compute. auto. Qed.
@@ -149,7 +149,7 @@ Definition tok (s : string) : cinput := CBytes (asc s).
 
 (* all guards except number i *)
 Definition all_but (i : nat) : guards :=
-  guards_of (map (fun j => negb (Nat.eqb i j)) (seq 0 19)).
+  guards_of (map (fun j => negb (Nat.eqb i j)) (seq 0 22)).
 
 
 Definition allowed_exn_of {A} (m : res A) : bool :=
@@ -172,7 +172,7 @@ Proof. vm_compute. reflexivity. Qed.
 
 (* 1: protected header "algenc" in a compact JWE -> TypeError in _perform_decrypt *)
 Lemma r01_header_not_object_jwe_compact :
-  is_err (jwe_decrypt_compact (all_but 1) (W (T "algenc")) default_jwe_reg (AKey k_oct) (tok "ImFsZ2VuYyI....")) EType = true.
+  is_err (jwe_decrypt_compact (all_but 1) (W (T "algenc")) default_jwe_reg (AKey k_oct) SNone (tok "ImFsZ2VuYyI....")) EType = true.
 Proof. vm_compute. reflexivity. Qed.
 
 Definition flat_jws : pv := D [("payload", T ""); ("protected", T "MQ"); ("signature", T "")].
@@ -192,7 +192,7 @@ Definition flat_jwe : pv :=
 (* 4: protected header 1 in a flattened JSON JWE -> TypeError in Recipient.headers *)
 Lemma r04_header_not_object_jwe_json :
   jwe_documented_shape flat_jwe = true /\
-  is_err (jwe_decrypt_json (all_but 4) (W (PInt 1)) default_jwe_reg (AKeySet [k_oct]) flat_jwe) EType = true.
+  is_err (jwe_decrypt_json (all_but 4) (W (PInt 1)) default_jwe_reg (AKeySet [k_oct]) SNone flat_jwe) EType = true.
 Proof. vm_compute. auto. Qed.
 
 (* 5: "crit": 0 -> TypeError in check_crit_header *)
@@ -203,13 +203,13 @@ Proof. vm_compute. reflexivity. Qed.
 
 (* 6: JSON JWE whose protected header has no "enc" -> KeyError in _perform_decrypt *)
 Lemma r06_enc_missing :
-  is_err (jwe_decrypt_json (all_but 6) (W (D [])) default_jwe_reg (AKey k_oct) flat_jwe) EKey = true.
+  is_err (jwe_decrypt_json (all_but 6) (W (D [])) default_jwe_reg (AKey k_oct) SNone flat_jwe) EKey = true.
 Proof. vm_compute. reflexivity. Qed.
 
 (* 7: "enc": [] -> TypeError (unhashable) in JWERegistry._check_algorithm *)
 Lemma r07_enc_unhashable :
   is_err (jwe_decrypt_compact (all_but 7) (W (D [("alg", T "dir"); ("enc", PList [])])) default_jwe_reg
-            (AKey k_oct) (tok "e30..AAAAAAAAAAAAAAAA..")) EType = true.
+            (AKey k_oct) SNone (tok "e30..AAAAAAAAAAAAAAAA..")) EType = true.
 Proof. vm_compute. reflexivity. Qed.
 
 (* 8: JWSRegistry.get_alg with an unhashable name (function level: the registries validate "alg" first) *)
@@ -223,14 +223,14 @@ Definition ecdh_header (epk : pv) : pv := D [("alg", T "ECDH-ES"); ("enc", T "A1
 
 (* 9: epk with an unregistered EC curve -> KeyError in ECBinding.import_public_key *)
 Lemma r09_epk_unknown_ec_curve :
-  is_err (jwe_decrypt_compact (all_but 9) (W (ecdh_header (epk_ec "P-999" []))) default_jwe_reg (AKey k_ec)
+  is_err (jwe_decrypt_compact (all_but 9) (W (ecdh_header (epk_ec "P-999" []))) default_jwe_reg (AKey k_ec) SNone
             (tok "e30..AAAAAAAAAAAAAAAA..")) EKey = true.
 Proof. vm_compute. reflexivity. Qed.
 
 (* 10: the same for an OKP recipient key *)
 Lemma r10_epk_unknown_okp_curve :
   is_err (jwe_decrypt_compact (all_but 10)
-            (W (ecdh_header (D [("kty", T "OKP"); ("crv", T "X999"); ("x", T "AA")]))) default_jwe_reg (AKey k_x25519)
+            (W (ecdh_header (D [("kty", T "OKP"); ("crv", T "X999"); ("x", T "AA")]))) default_jwe_reg (AKey k_x25519) SNone
             (tok "e30..AAAAAAAAAAAAAAAA..")) EKey = true.
 Proof. vm_compute. reflexivity. Qed.
 
@@ -238,13 +238,13 @@ Proof. vm_compute. reflexivity. Qed.
 Lemma r11_p2c_negative :
   is_err (jwe_decrypt_compact (all_but 11)
             (W (D [("alg", T "PBES2-HS256+A128KW"); ("enc", T "A128GCM"); ("p2s", T "AA"); ("p2c", PInt (-1)%Z)]))
-            jwe_all (AKey k_oct) (tok "e30..AAAAAAAAAAAAAAAA..")) EOverflow = true.
+            jwe_all (AKey k_oct) SNone (tok "e30..AAAAAAAAAAAAAAAA..")) EOverflow = true.
 Proof. vm_compute. reflexivity. Qed.
 
 (* 12: corrupt DEFLATE data under a valid tag -> zlib.error *)
 Lemma r12_corrupt_deflate :
   is_err (jwe_decrypt_compact (all_but 12) (W (D [("alg", T "dir"); ("enc", T "A128GCM"); ("zip", T "DEF")]))
-            default_jwe_reg (AKey k_oct) (tok "e30..AAAAAAAAAAAAAAAA..")) EZlib = true.
+            default_jwe_reg (AKey k_oct) SNone (tok "e30..AAAAAAAAAAAAAAAA..")) EZlib = true.
 Proof. vm_compute. reflexivity. Qed.
 
 (* 13: EdDSA token verified with an X25519 key -> AssertionError *)
@@ -263,7 +263,7 @@ Proof. vm_compute. reflexivity. Qed.
 (* 15: key wrapping recipient without "encrypted_key" -> AssertionError *)
 Lemma r15_missing_encrypted_key :
   is_err (jwe_decrypt_json (all_but 15) (W (D [("alg", T "A128KW"); ("enc", T "A128GCM")])) default_jwe_reg
-            (AKey k_oct) flat_jwe) EAssert = true.
+            (AKey k_oct) SNone flat_jwe) EAssert = true.
 Proof. vm_compute. reflexivity. Qed.
 
 (* 16: header JSON nested too deeply -> RecursionError *)
@@ -295,13 +295,162 @@ Proof. vm_compute. auto. Qed.
 (* with every guard the same witnesses are rejected with an allowed class *)
 Definition witnesses_fixed : list bool := [
   allowed_exn_of (jws_deserialize_compact all_guards (W (T "alg")) default_jws_reg (AKey k_oct) (tok "ImFsZyI.e30.e30"));
-  allowed_exn_of (jwe_decrypt_compact all_guards (W (T "algenc")) default_jwe_reg (AKey k_oct) (tok "ImFsZ2VuYyI...."));
+  allowed_exn_of (jwe_decrypt_compact all_guards (W (T "algenc")) default_jwe_reg (AKey k_oct) SNone (tok "ImFsZ2VuYyI...."));
   allowed_exn_of (jws_deserialize_json all_guards (W (PInt 1)) default_jws_reg (AKey k_oct) flat_jws);
-  allowed_exn_of (jwe_decrypt_json all_guards (W (PInt 1)) default_jwe_reg (AKeySet [k_oct]) flat_jwe);
-  allowed_exn_of (jwe_decrypt_json all_guards (W (D [])) default_jwe_reg (AKey k_oct) flat_jwe);
-  allowed_exn_of (jwe_decrypt_compact all_guards (W (ecdh_header (epk_ec "P-999" []))) default_jwe_reg (AKey k_ec) (tok "e30..AAAAAAAAAAAAAAAA.."));
-  allowed_exn_of (jwe_decrypt_compact all_guards (W (D [("alg", T "dir"); ("enc", T "A128GCM"); ("zip", T "DEF")])) default_jwe_reg (AKey k_oct) (tok "e30..AAAAAAAAAAAAAAAA.."));
+  allowed_exn_of (jwe_decrypt_json all_guards (W (PInt 1)) default_jwe_reg (AKeySet [k_oct]) SNone flat_jwe);
+  allowed_exn_of (jwe_decrypt_json all_guards (W (D [])) default_jwe_reg (AKey k_oct) SNone flat_jwe);
+  allowed_exn_of (jwe_decrypt_compact all_guards (W (ecdh_header (epk_ec "P-999" []))) default_jwe_reg (AKey k_ec) SNone (tok "e30..AAAAAAAAAAAAAAAA.."));
+  allowed_exn_of (jwe_decrypt_compact all_guards (W (D [("alg", T "dir"); ("enc", T "A128GCM"); ("zip", T "DEF")])) default_jwe_reg (AKey k_oct) SNone (tok "e30..AAAAAAAAAAAAAAAA.."));
   allowed_exn_of (jwt_decode_jws all_guards (wprims jclaims) default_jws_reg (AKey k_oct) (tok "e30.W10.e30"))
 ].
 Lemma witnesses_fixed_ok : forallb (fun b => b) witnesses_fixed = true.
 Proof. vm_compute. reflexivity. Qed.
+
+(* ------------------------------------------------------------------ *)
+(* round 2: ECDH-1PU / sender keys                                      *)
+(* ------------------------------------------------------------------ *)
+Definition pu_header : pv := D [("alg", T "ECDH-1PU"); ("enc", T "A128GCM"); ("epk", epk_ec "P-256" [])].
+
+(* 19: an ECDH-1PU token decrypted without a sender key -> AssertionError *)
+Lemma r19_1pu_without_sender :
+  is_err (jwe_decrypt_compact (all_but 19) (W pu_header) jwe_all (AKey k_ec) SNone (tok "e30..AAAAAAAAAAAAAAAA..")) EAssert = true /\
+  is_err (jwt_decode_jwe (all_but 19) (W pu_header) jwe_all (AKey k_ec) (tok "e30..AAAAAAAAAAAAAAAA..")) EAssert = true.
+Proof. vm_compute. auto. Qed.
+
+(* 20: ECDH-1PU with an EC recipient key and an RSA sender key (chosen by "skid" from a key set)
+   -> AttributeError (key.curve_name) in ECKey.exchange_derive_key *)
+Definition k_rsa_kid : key :=
+  {| k_kty := "RSA"; k_crv := ""; k_kid := T "rsa"; k_use := PNone; k_raw := []; k_private := true; k_opfail := [] |}.
+Definition pu_header_skid : pv :=
+  D [("alg", T "ECDH-1PU"); ("enc", T "A128GCM"); ("epk", epk_ec "P-256" []); ("skid", T "rsa")].
+Lemma r20_1pu_rsa_sender :
+  is_err (jwe_decrypt_compact (all_but 20) (W pu_header_skid) jwe_all (AKey k_ec) (SSet [k_ec; k_rsa_kid])
+            (tok "e30..AAAAAAAAAAAAAAAA..")) EAttr = true.
+Proof. vm_compute. reflexivity. Qed.
+
+(* 21: ECDH-1PU with an RSA recipient key: without check_key_type the code imports the epk with
+   RSAKey.import_key and then calls the missing RSAKey.exchange_derive_key (AttributeError on /repo before
+   fix15, witness in c16.meta.json).  The model does not contain RSA / oct key import: it leaves its
+   fragment here (EOracleMiss, not an allowed class), with the guard it raises InvalidKeyTypeError. *)
+Lemma r21_1pu_rsa_recipient :
+  is_err (jwe_decrypt_compact (all_but 21) (W pu_header) jwe_all (AKey k_rsa) (SKey k_ec)
+            (tok "e30..AAAAAAAAAAAAAAAA..")) EOracleMiss = true /\
+  is_err (jwe_decrypt_compact all_guards (W pu_header) jwe_all (AKey k_rsa) (SKey k_ec)
+            (tok "e30..AAAAAAAAAAAAAAAA..")) (EJose InvalidKeyTypeError) = true.
+Proof. vm_compute. auto. Qed.
+
+(* callable keys: what guess_key raises *)
+Lemma callable_keys :
+  guess_key (ACall (AKey k_oct)) (Ok (PDict [])) = Ok k_oct /\
+  guess_key (ACall (AText k_oct)) (Ok (PDict [])) = Ok k_oct /\
+  guess_key (ACall AOther) (Ok (PDict [])) = Err EValue /\
+  guess_key (ACall (ACall (AKey k_oct))) (Ok (PDict [])) = Err EValue /\
+  guess_key AOther (Ok (PDict [])) = Err EValue /\
+  guess_key (ACall (AKeySet [])) (Ok (PDict [])) = Err (EJose InvalidKeyIdError).
+Proof. vm_compute. auto 10. Qed.
+
+(* ------------------------------------------------------------------ *)
+(* every guard is necessary                                             *)
+(* ------------------------------------------------------------------ *)
+Definition escapes {A} (m : res A) : bool := match m with Err e => negb (allowed_exn e) | Ok _ => false end.
+
+(* entry i: an input on which the model with every guard except i escapes *)
+Definition escape_witnesses : list bool := [
+  escapes (jws_deserialize_compact (all_but 0) (W (T "alg")) default_jws_reg (AKey k_oct) (tok "ImFsZyI.e30.e30"));
+  escapes (jwe_decrypt_compact (all_but 1) (W (T "algenc")) default_jwe_reg (AKey k_oct) SNone (tok "ImFsZ2VuYyI...."));
+  escapes (jws_deserialize_json (all_but 2) (W (PInt 1)) default_jws_reg (AKey k_oct) flat_jws);
+  escapes (r7797_deserialize_json (all_but 3) (W (PInt 1)) default_jws_reg default_7797_reg (AKey k_oct) flat_jws);
+  escapes (jwe_decrypt_json (all_but 4) (W (PInt 1)) default_jwe_reg (AKeySet [k_oct]) SNone flat_jwe);
+  escapes (jws_deserialize_compact (all_but 5) (W (D [("alg", T "HS256"); ("crit", PInt 0)])) default_jws_reg (AKey k_oct) (tok "e30.e30.e30"));
+  escapes (jwe_decrypt_json (all_but 6) (W (D [])) default_jwe_reg (AKey k_oct) SNone flat_jwe);
+  escapes (jwe_decrypt_compact (all_but 7) (W (D [("alg", T "dir"); ("enc", PList [])])) default_jwe_reg (AKey k_oct) SNone (tok "e30..AAAAAAAAAAAAAAAA.."));
+  escapes (jws_get_alg (all_but 8) default_jws_reg (PList []));
+  escapes (jwe_decrypt_compact (all_but 9) (W (ecdh_header (epk_ec "P-999" []))) default_jwe_reg (AKey k_ec) SNone (tok "e30..AAAAAAAAAAAAAAAA.."));
+  escapes (jwe_decrypt_compact (all_but 10) (W (ecdh_header (D [("kty", T "OKP"); ("crv", T "X999"); ("x", T "AA")]))) default_jwe_reg (AKey k_x25519) SNone (tok "e30..AAAAAAAAAAAAAAAA.."));
+  escapes (jwe_decrypt_compact (all_but 11) (W (D [("alg", T "PBES2-HS256+A128KW"); ("enc", T "A128GCM"); ("p2s", T "AA"); ("p2c", PInt (-1)%Z)])) jwe_all (AKey k_oct) SNone (tok "e30..AAAAAAAAAAAAAAAA.."));
+  escapes (jwe_decrypt_compact (all_but 12) (W (D [("alg", T "dir"); ("enc", T "A128GCM"); ("zip", T "DEF")])) default_jwe_reg (AKey k_oct) SNone (tok "e30..AAAAAAAAAAAAAAAA.."));
+  escapes (jws_deserialize_compact (all_but 13) (W (D [("alg", T "EdDSA")])) jws_all (AKey k_x25519) (tok "e30.e30.e30"));
+  escapes (r7797_deserialize_compact (all_but 14) (W (D [("alg", T "HS256"); ("b64", PBool false); ("crit", PList [T "b64"])])) default_jws_reg default_7797_reg (AKey k_rsa) (tok "e30.e30.e30"));
+  escapes (jwe_decrypt_json (all_but 15) (W (D [("alg", T "A128KW"); ("enc", T "A128GCM")])) default_jwe_reg (AKey k_oct) SNone flat_jwe);
+  escapes (jws_deserialize_compact (all_but 16) Wrec default_jws_reg (AKey k_oct) (tok "e30.e30.e30"));
+  escapes (jwt_decode_jws (all_but 17) (wprims jclaims) default_jws_reg (AKey k_oct) (tok "e30.W10.e30"));
+  escapes (validate_use_ops (all_but 18) (D [("use", PList []); ("key_ops", PList [])]));
+  escapes (jwe_decrypt_compact (all_but 19) (W pu_header) jwe_all (AKey k_ec) SNone (tok "e30..AAAAAAAAAAAAAAAA.."));
+  escapes (jwe_decrypt_compact (all_but 20) (W pu_header_skid) jwe_all (AKey k_ec) (SSet [k_ec; k_rsa_kid]) (tok "e30..AAAAAAAAAAAAAAAA.."));
+  escapes (jwe_decrypt_compact (all_but 21) (W pu_header) jwe_all (AKey k_rsa) (SKey k_ec) (tok "e30..AAAAAAAAAAAAAAAA.."))
+].
+
+Lemma guards_are_necessary :
+  length escape_witnesses = length (guards_list all_guards) /\
+  forall i, (i < length (guards_list all_guards))%nat -> nth i escape_witnesses false = true.
+Proof.
+  split; [reflexivity|]. intros i Hi.
+  assert (F : forallb (fun b => b) escape_witnesses = true) by (vm_compute; reflexivity).
+  rewrite forallb_forall in F. apply F. apply nth_In.
+  change (length escape_witnesses) with (length (guards_list all_guards)). exact Hi.
+Qed.
+
+(* ------------------------------------------------------------------ *)
+(* the classes each primitive's contract allows, as a table             *)
+(* ------------------------------------------------------------------ *)
+Definition J (c : jcls) := EJose c.
+Definition contract_classes : list (string * list exn) := [
+  ("json.loads", [EValue; ERuntime]);                                   (* JSONDecodeError / UnicodeDecodeError; RecursionError *)
+  ("alg.verify", [EValue; J UnsupportedKeyOperationError]);             (* with a key of the algorithm's type *)
+  ("enc.decrypt", [EValue; J DecodeError]);
+  ("zlib", [EZlib; J ExceededSizeError]);
+  ("rsa.decrypt", [J DecodeError]);
+  ("aes_key_unwrap", [J DecodeError; EValue]);
+  ("gcm.unwrap", [EValue; J DecodeError]);
+  ("pbkdf2", [EValue]);                                                 (* for a count in 1..2^31-1 *)
+  ("import_epk", [EValue]);
+  ("ecdh", [EValue]);
+  ("concat_kdf", [EValue])
+].
+Definition classes_of (name : string) : list exn :=
+  match find (fun p => String.eqb (fst p) name) contract_classes with Some (_, l) => l | None => [] end.
+Definition within {A} (name : string) (m : res A) : Prop :=
+  match m with Err e => existsb (exn_eqb e) (classes_of name) = true | Ok _ => True end.
+
+(* a world whose primitives stay within the table satisfies the contract of the theorems *)
+Definition prims_in_classes (P : prims) : Prop :=
+  (forall b, within "json.loads" (p_json_loads P b)) /\
+  (forall row k m s, In row jws_alg_table -> k_kty k = ja_key_type row ->
+     (ja_family row = "EdDSA"%string -> ed_curve k = true) -> within "alg.verify" (p_jws_verify P (ja_name row) k m s)) /\
+  (forall n ct tag cek iv aad, within "enc.decrypt" (p_enc_decrypt P n ct tag cek iv aad)) /\
+  (forall b, within "zlib" (p_inflate P b)) /\
+  (forall a k ek, within "rsa.decrypt" (p_rsa_decrypt P a k ek)) /\
+  (forall kek ek, within "aes_key_unwrap" (p_aes_unwrap P kek ek)) /\
+  (forall k iv tag ek, within "gcm.unwrap" (p_gcm_unwrap P k iv tag ek)) /\
+  (forall a k s c, (1 <= c <= 2147483647)%Z -> within "pbkdf2" (p_pbkdf2 P a k s c)) /\
+  (forall kty d priv, within "import_epk" (p_import_epk P kty d priv)) /\
+  (forall k e, within "ecdh" (p_ecdh P k e)) /\
+  (forall s f n, within "concat_kdf" (p_concat_kdf P s f n)).
+
+Lemma within_safe {A} name (m : res A) :
+  forallb allowed_exn (classes_of name) = true -> within name m -> safe m.
+Proof.
+  intros F W. destruct m as [a|e]; [exact I|]. cbn in W |- *.
+  apply existsb_exists in W. destruct W as [x [Ix Ex]].
+  rewrite forallb_forall in F. specialize (F x Ix).
+  destruct e, x; try discriminate; try exact F; try reflexivity.
+Qed.
+
+Lemma contract_classes_ok P : prims_in_classes P -> prims_ok P.
+Proof.
+  intros (H1 & H2 & H3 & H4 & H5 & H6 & H7 & H8 & H9 & H10 & H11).
+  unfold prims_ok. repeat split.
+  - intros b e E. specialize (H1 b). rewrite E in H1. cbn in H1.
+    destruct e; try discriminate; auto.
+  - intros. eapply within_safe; [|apply H2; assumption]. reflexivity.
+  - intros. eapply within_safe; [|apply H3]. reflexivity.
+  - intros b e E. specialize (H4 b). rewrite E in H4. cbn in H4.
+    destruct e as [c| | | | | | | | | |]; try discriminate; auto. destruct c; try discriminate. auto.
+  - intros. eapply within_safe; [|apply H5]. reflexivity.
+  - intros. eapply within_safe; [|apply H6]. reflexivity.
+  - intros. eapply within_safe; [|apply H7]. reflexivity.
+  - intros. eapply within_safe; [|apply H8; assumption]. reflexivity.
+  - intros. eapply within_safe; [|apply H9]. reflexivity.
+  - intros. eapply within_safe; [|apply H10]. reflexivity.
+  - intros. eapply within_safe; [|apply H11]. reflexivity.
+Qed.
